@@ -291,3 +291,79 @@ Example C17_example_nested :
              (exec private_cfg st0 ls)
   = Some ([7; 8], Some ([1; 1; 2; 2], [[]; [[49]; [49]]; [[49]; [49]]; [[49]; [49]]]), Some [1; 1; 2; 2; 3; 3]).
 Proof. vm_compute. reflexivity. Qed.
+
+(* ---------------------------------------------------------------------------------------
+   Several calls per attempt (Model/C17Calls.v): the selection input of EVERY call is the
+   request's selected set, whatever the attempt number; the BeginCall functions are regenerated
+   from subchannel.go / channel.go / peer.go / retry.go (Gen/GenC17Calls.v).                  *)
+From Verif Require Import Base.C17CallSem Gen.GenC17Calls Model.C17Calls Proofs.C17CallsP Proofs.C17CallsTieP.
+
+(* The mirrors ARE the code: RequestState.PrevSelectedPeers / RetryCount, the whole of
+   Peer.BeginCall (recording the peer in the RequestState is its first effect, before validateCall /
+   GetConnection / beginCall can fail), SubChannel.BeginCall (Get is given PrevSelectedPeers of the
+   RequestState of the call options, unconditionally), Channel.BeginCall, and the RequestState
+   entry of the call options the thrift / json clients build inside their retried function -- for
+   every behaviour of the rest of the system (the list's Get, the connection: parameters). *)
+Theorem C17_calls_generated :
+  (forall rs, c17PrevSelectedPeers rs = m_prev_selected rs) /\
+  (forall rs, c17RetryCount rs = m_retry_count rs) /\
+  (forall (K C : Type) validate (gc : K * Z) (cb : K -> c17co -> C * Z) (nc : C) p ctx sn mn co,
+     c17PeerBeginCall validate gc cb nc p ctx sn mn co = m_peer_begin_call validate gc cb nc p co) /\
+  (forall (P C : Type) (get : list (list Z) -> P * Z) (begin : P -> c17co -> C * Z) (nc : C) ctx mn co,
+     c17SubChannelBeginCall get begin nc ctx mn co = m_sc_begin_call get begin nc co) /\
+  (forall (P C : Type) (goa : list Z -> P) (begin : P -> c17co -> C * Z) ctx sn mn hp co,
+     c17ChannelBeginCall goa begin ctx sn mn hp co = m_ch_begin_call goa begin hp co) /\
+  (forall rs, c17ThriftCallRequestState rs = rs /\ c17JsonCallRequestState rs = rs).
+Proof.
+  exact (conj tie_prev_selected (conj tie_retry_count (conj tie_peer_begin_call
+          (conj tie_sc_begin_call (conj tie_ch_begin_call tie_clients))))).
+Qed.
+Print Assumptions C17_calls_generated.
+
+(* A run whose attempts make calls is a run of the private-state specification (C17_run_alone,
+   C17_runs_private: numbering, budget, stop rule) on the labels start / enter / one LMark per peer
+   a call recorded / exit; the lists keep their members. *)
+Theorem C17_calls_run : forall lists acts s,
+  Forall (fun l => exists ops, lrun pl_empty ops = Some l) lists ->
+  c_exec sc_model (c_init lists) acts = Some s ->
+  iso_exec None (cs_labels s) = Some (cs_run s) /\
+  map pl_keys (cs_lists s) = map pl_keys lists.
+Proof. exact calls_run_is_iso. Qed.
+Print Assumptions C17_calls_run.
+
+(* Sub-channel calls avoid the peers already tried while untried ones exist -- EVERY call: after
+   any history of the run (any number of attempts, each with any number of direct calls,
+   sub-channel calls on any of the lists, calls that carry no RequestState), while an attempt is
+   running -- the first included --, a sub-channel call with the RequestState is handed exactly
+   what the run's calls have recorded so far ([tried], see C17_tried_members) and goes to a member
+   whose host:port is untried if any member's is, and whose host is untried too if any member has
+   both untried; the peer is recorded in turn.  (An empty list: no peer, nothing recorded.) *)
+Theorem C17_every_call_avoids : forall lists acts s j l ir,
+  Forall (fun l => exists ops, lrun pl_empty ops = Some l) lists ->
+  c_exec sc_model (c_init lists) acts = Some s ->
+  cs_run s = Some ir -> ctl_can_mark (ir_ctl ir) = true ->
+  nth_error (cs_lists s) j = Some l ->
+  let tried := fold_left add_selected (cs_marks s) [] in
+  ro_sel (ir_obj ir) = tried /\
+  exists s' p, c_step sc_model s (ACall (CSub j 0)) = Some s' /\ cs_picks s' = cs_picks s ++ [p] /\
+    ((pl_keys l = [] /\ p = [] /\ cs_marks s' = cs_marks s) \/
+     (In p (pl_keys l) /\ cs_marks s' = cs_marks s ++ [p] /\
+      ((exists q, In q (pl_keys l) /\ tier2 tried q = true) -> tier2 tried p = true) /\
+      ((exists q, In q (pl_keys l) /\ tier1 tried q = true) -> tier1 tried p = true))).
+Proof. exact every_call_avoids. Qed.
+Print Assumptions C17_every_call_avoids.
+
+(* the selected set holds exactly the host:ports the run's calls recorded, and their hosts *)
+Theorem C17_tried_members : forall marks x,
+  In x (fold_left add_selected marks []) <-> exists p, In p marks /\ (x = p \/ x = host_of p).
+Proof. exact tried_members. Qed.
+Print Assumptions C17_tried_members.
+
+(* Non-vacuity, and the discipline is needed: peers A (score 0) and B (score 1), ONE attempt that
+   makes two sub-channel calls with its RequestState.  The code goes to A, then to the untried B;
+   a SubChannel.BeginCall that hands the selected set over on a retry only ("the first attempt has
+   nothing to avoid") goes to A twice. *)
+Theorem C17_first_attempt_second_call :
+  ex_picks sc_model = Some [ex_A; ex_B] /\ ex_picks sc_retry_only = Some [ex_A; ex_A].
+Proof. exact first_attempt_second_call. Qed.
+Print Assumptions C17_first_attempt_second_call.
